@@ -17,7 +17,7 @@ TInit ==
   /\ t0 \in Starts /\ l = t0
   /\ role = "client" /\ local = <<>> /\ adv = <<>> /\ pc = "idle"
   /\ selected = None /\ stepIdx = 0 /\ mechDone = FALSE /\ mechErr = FALSE
-  /\ successSeen = FALSE /\ permitted = "none" /\ authn = FALSE /\ npeer = 0 /\ sess = 1
+  /\ successSeen = FALSE /\ earlySuccess = FALSE /\ permitted = "none" /\ authn = FALSE /\ npeer = 0 /\ sess = 1
 
 TrReset ==
   /\ l = t0 /\ IsEv("reset")
@@ -25,7 +25,7 @@ TrReset ==
      /\ role' = r.role /\ local' = r.local
      /\ adv' = (IF r.role = "client" THEN r.adv ELSE <<>>)
      /\ pc' = (IF r.role = "client" THEN "c_select" ELSE "s_adv")
-  /\ UNCHANGED <<selected, stepIdx, mechDone, mechErr, successSeen, permitted, authn, npeer, sess>>
+  /\ UNCHANGED <<selected, stepIdx, mechDone, mechErr, successSeen, earlySuccess, permitted, authn, npeer, sess>>
 
 (* the next connection is negotiated with the same feature value (the previous session has *)
 (* returned); adv: what the peer of a client advertises on the new connection              *)
